@@ -340,8 +340,10 @@ def enumerate_inputs(check: Callable[[Any], Tuple[Optional[Dict[str, Any]], str]
             stats.outcome(f"{scenario}:{k}" if keep_outcomes else scenario, v)
         for x, v in bad:
             if len(stats.violations) < 200:
-                stats.violations.append(Violation(v["what"], dict(v.get("replay", {}), scenario=scenario, input=x),
-                                                  v.get("signature")))
+                rp = dict(v.get("replay", {}), scenario=scenario)
+                if "case" not in rp:
+                    rp["input"] = x
+                stats.violations.append(Violation(v["what"], rp, v.get("signature")))
         first = False
 
 
